@@ -532,7 +532,7 @@ def check_c16(pid, tier, build, props):
             problems.append("harness error: %r" % (meta,))
             continue
         if meta["errors"] and len(violations) < 5:
-            violations.append({"graph": item[1], "witness": {"reason": "iterator raised", "detail": meta["errors"][:2]}})
+            violations.append({"graph": item[1], "witness": {"reason": "iterator raised, or two enumerations of one view disagree", "detail": meta["errors"][:2]}})
         if res is None:
             continue
         rs = res if (res and isinstance(res[0], list)) else [res]
